@@ -34,7 +34,7 @@ def gen(rng):
     check = rng.random() < 0.45
     complete = check and rng.random() < 0.4   # every statement already has its reference: an uninterrupted --check passes
     wm = world.gen_world_model(rng, nfiles=rng.randrange(2, 7), sizes=["tiny", "tiny", "tiny", "k8", "k64"],
-                               p_have=1.0 if complete else 0.35, id_hi=400, max_stmts=3,
+                               p_have=1.0 if complete else 0.35, id_hi=400, max_stmts=3, layout_p=0.0 if complete else 0.1,
                                min_missing=0 if complete else rng.choice([0, 1, 1, 2]))
     knobs = {"threads": rng.randrange(1, 5), "config_arg": rng.choice(["rel", "abs"])}
     knobs = scen.env_knobs(rng, knobs)
@@ -126,9 +126,12 @@ def evaluate(wm, knobs, plan, check, ctx, twin=None):
         if after_k0 and len(opened) > 1:
             V("kept-going-after-signal", "%d further source files were started after the signal: %s" % (len(opened), opened[:4]))
         # (3) exit 0 only if nothing was left to do
-        if after_k0 and res.status == 0 and not (io_fault and check):
-            # (with an extra I/O fault only the edit half is evaluated: exit 0 with a file left un-updated is wrong under
-            # C18 and under C08 alike, whereas what a read fault does to a --check verdict is not this property's business)
+        read_fault = any(o.fired != "-" and ("fail" in o.fired or "torn" in o.fired) and
+                         o.kind in ("READ", "OPEN_R", "STAT", "OPENDIR", "READDIR") for o in res.ops)
+        if after_k0 and res.status == 0 and not (io_fault and (check or read_fault)):
+            # (with an extra I/O fault only the edit half is evaluated, and only for faults on creating / writing / renaming
+            # the new content: exit 0 with such a file left un-updated is wrong under C18 and under C08 alike, whereas a
+            # file skipped because it could not be read (C17 demands the skip) is not work the signal interrupted)
             if check:
                 left = [o for o in tops if o.kind == "OPEN_R" and o.path in wm["files"]
                         and (o.k > k or (o.k == k and f0["act"] == "sig_before"))]
